@@ -199,6 +199,14 @@ class C26(Check):
         add("entryout", elf_desc(entry=0))
         add("jumpout", elf_desc(words=[j_type(0x6F, 0, 0x400), i_type(0x13, 0, 1, 0, 1)]))
         add("jumpmid", elf_desc(words=[b_type(0x63, 0, 1, 2, 6), i_type(0x13, 0, 1, 0, 1), i_type(0x13, 0, 1, 0, 1)]))
+        # constant targets inside an instruction in every position: inside the jump itself, inside the previous / next / last
+        # instruction, inside another jump, from a branch and from a jump
+        A = i_type(0x13, 0, 1, 0, 1)
+        for ws in ([j_type(0x6F, 0, 2)], [A, j_type(0x6F, 0, 2)], [A, j_type(0x6F, 0, -2)], [A, A, j_type(0x6F, 0, -6)],
+                   [b_type(0x63, 0, 1, 2, 2), A], [A, b_type(0x63, 1, 1, 2, 2)], [j_type(0x6F, 0, 6), j_type(0x6F, 0, -4)],
+                   [j_type(0x6F, 0, 10), A, A], [A, b_type(0x63, 0, 1, 2, 6), A], [j_type(0x6F, 1, 6), A]):
+            add("jumpmid", elf_desc(words=ws))
+            add("jumpmid", elf_desc(words=ws + [A, A]))
         add("wrongclass", elf_desc(), muts=[["put", 4, [1]]])
         add("bigendian", elf_desc(), muts=[["put", 5, [2]]])
         # systematic corruptions of a good file (layout of the harness writer: ehdr 64, phdr 56 at 64, data, shdrs 64 each)
